@@ -1688,3 +1688,73 @@ def header_lookup(prog, rep, rule="W9-lookup"):
     if n < 1:
         raise cdb.AnalysisBroken("http_findheader returns no value")
     return n
+
+
+class _TerminatorSeen:
+    """Ghost: $seen is the window offset at which memcmp(&buf[i], "\\r\\n\\r\\n", 4) was last seen to answer 0 (learnt on that edge; the
+    relation to the scan position is lost by itself when the position moves)."""
+
+    def __init__(self, buf):
+        self.buf = buf
+
+    def on_atom(self, A, cs, op, L, R, Le, Re):
+        from ..poly import Lin, cons
+        if op != "==" or R != ("c", 0) or L[0] != "call" or L[1] != "memcmp" or len(L) < 5:
+            return cs
+        a0, a1, a2 = L[2], L[3], L[4]
+        while a0[0] == "cast":
+            a0 = a0[-1]
+        if not (a0[0] == "&" and a0[1][0] == "[]" and a0[1][1] == self.buf and a1 == ("s", b"\r\n\r\n") and a2 == ("c", 4)):
+            return cs
+        e = Le.strip() if Le is not None else None
+        if e is None or e.cls != "CallExpr" or e.arg(0) is None:
+            return cs
+        ix = e.arg(0).strip()
+        while ix is not None and ix.cls in ("CStyleCastExpr", "ImplicitCastExpr", "ParenExpr"):
+            ix = ix.kid(0).strip() if ix.kid(0) is not None else None
+        if ix is None or ix.cls != "UnaryOperator" or ix.kid(0) is None or ix.kid(0).strip() is None or ix.kid(0).strip().cls != "ArraySubscriptExpr":
+            return cs
+        st = frozenset(x for x in cs if isinstance(x, tuple))
+        i = A.lin(ix.kid(0).strip().kid(1), st)
+        if i is None:
+            return cs
+        cs = A._kill(list(cs), lambda v: v == ("$seen",))
+        return list(cs) + cons("==", Lin.var(("$seen",)), i)
+
+
+def terminator_found(prog, rep, rule="W3-found"):
+    """The header block is handed on only where its terminator has been SEEN: at every call gotheaders(H, buf, n) in the handler
+    that scans for CRLF CRLF, n == s + 4 for an offset s at which the comparison with the terminator answered equal on this path
+    (relational, sa/poly.py, with a ghost for that offset).  A test of the scan position against a length is not that: when the
+    scan's bound and the test's disagree (the scan stops at a cap, the test looks at everything buffered), a position the scan
+    merely stopped at is taken for a match, and the parser is run on a block with no blank line in it."""
+    from .. import poly
+    from ..poly import Lin
+    u = prog.unit(UNIT)
+    n = 0
+    for f in u.funcs:
+        if f.file != UNIT:
+            continue
+        calls = list(f.calls("gotheaders"))
+        peeks = list(f.calls("netbuf_read_peek"))
+        if not calls or not peeks:
+            continue
+        bufv = norm(peeks[0].arg(1))[1] if peeks[0].arg(1) is not None and norm(peeks[0].arg(1))[0] == "&" else None
+        if bufv is None:
+            continue
+        A = poly.Analysis(f, quiet={"memcmp", "netbuf_read_peek", "netbuf_read_wait", "warn0", "libcperciva_warn0"})
+        A.ghost = _TerminatorSeen(bufv)
+        A.run()
+        for c in calls:
+            st = A.state_before(c)
+            if st is None:
+                continue
+            n += 1
+            ln = A.lin(c.arg(2), st)
+            ok = ln is not None and A.holds(st, "==", ln, Lin.var(("$seen",)) + Lin.const(4))
+            rep.check(ok, rule, "%s: the block handed to gotheaders ends with a terminator that was seen there" % f.name, c.where,
+                      "on some path to this call the comparison with CRLF CRLF has not answered equal at (length - 4): the position is one the scan stopped at, not one it matched",
+                      function=f.name, construct="terminator-seen")
+    if n < 1:
+        raise cdb.AnalysisBroken("%s: no call of gotheaders in a handler that peeks at the window" % rule)
+    return n
